@@ -16,7 +16,7 @@ const ID = "C04"
 func TestMain(m *testing.M) { rep.Main(m, ID) }
 
 func opts() sim.GenOpts {
-	o := sim.GenOpts{MaxSteps: 6, Retries: true, Preconds: true, SetupFails: true, Handlers: true, Stop: true}
+	o := sim.GenOpts{MaxSteps: 6, Retries: true, Preconds: true, SetupFails: true, Handlers: true, Stop: true, Redirects: true}
 	if rep.Thorough() {
 		o.MaxSteps = 10
 	}
